@@ -537,8 +537,15 @@ class SVGPath(SVGShape, SVGCommandSeq):
         if not inplace:
             target = copy.deepcopy(self)
 
+        def _might_paint(subpath):
+            # judge the subpath with this path's own paint (a stroke-only path paints
+            # through subpaths that enclose no area)
+            probe = copy.copy(self)
+            probe.d = subpath
+            return probe.might_paint()
+
         target.d = " ".join(
-            subpath for subpath in self.subpaths() if SVGPath(d=subpath).might_paint()
+            subpath for subpath in self.subpaths() if _might_paint(subpath)
         )
 
         return target
